@@ -237,35 +237,82 @@ def run(run):
             else:
                 run.holds("R1", key, "", F.loc(n))
         # CWE467
+        from .lib import mayflow as MF
+        from .lib import iterctx as IC
         f = F.fn("check_for_pointer_sized_arg", mod="checkers::cwe_467")
-        sy = S.Sym(F)
-        env = {}
-        t = sy.term(f["body"], env)
         site = F.loc(f["body"])
-        rets = T.paths_to(f["body"], lambda x: x.get("k") == "Return")
-        eq_ok = False
-        cmp_other = []
-        for x in S.subterms(t):
-            sides = None
-            if is_call(x, ("eq", "ne", "lt", "le", "gt", "ge")) and len(x[2]) == 2:
-                sides, op = [fmt(a) for a in x[2]], x[1]
-            elif isinstance(x, tuple) and x and x[0] == "bin" and x[1] in ("Eq", "Ne", "Lt", "Le", "Gt", "Ge"):
-                sides, op = [fmt(x[2]), fmt(x[3])], x[1].lower()
-            if sides and any("eval_parameter_arg" in s0 for s0 in sides):
-                if op == "eq" and any("stack_pointer_register.size" in s0 for s0 in sides):
-                    eq_ok = True
-                else:
-                    cmp_other.append((op, sides))
-        eq_ok = eq_ok and not cmp_other
-        run.check("R1", "sizeof|equals-pointer-size", eq_ok, "the sizeof-on-pointer check must compare the parameter's value for EQUALITY with the size of the stack pointer register (the pointer size of the analysed CPU), not a fixed number", site)
-        fors = T.for_loops(f["body"])
-        itt = sy.ev(fors[0][2], env) if fors else None
-        all_params = itt is not None and any(isinstance(y, tuple) and y and y[0] == "field" and y[2] == "parameters" for y in S.subterms(itt)) and not any(is_call(y, ("take", "skip", "first", "last", "filter", "step_by", "nth", "rev")) for y in S.subterms(itt))
-        tail = S.value(t)
-        loop_rets = [sy.ev(n["e"], env) for n, _ in rets if "e" in n]
-        # inside the loop only `return true` may leave early: any other early return decides on the first examined parameter
-        any_sem = all_params and tail == ("lit", False) and bool(loop_rets) and all(r == ("lit", True) for r in loop_rets)
-        run.check("R1", "sizeof|any-parameter", any_sem, "the check must hold if SOME parameter equals the pointer size: loop over all parameters, true on the first hit, false after the loop", site)
+        deep = list(T.walk_deep(F, f["body"], 2))
+        # values derived from the evaluated parameter, and values derived from the pointer size
+        mf_val = MF.MayFlow(F, seed=lambda y: T.is_call(y, "eval_parameter_arg"))
+        mf_val.run(f, set())
+        mf_ptr = MF.MayFlow(F, seed=lambda y: y.get("k") == "Field" and y.get("fn") == "size" and any(z.get("k") == "Field" and z.get("fn") == "stack_pointer_register" for z in T.walk(y)))
+        mf_ptr.run(f, set())
+
+        def side(e):
+            v = any(mf_val.mentions(e, ids) for ids in mf_val.reached.values())
+            p_ = any(mf_ptr.mentions(e, ids) for ids in mf_ptr.reached.values())
+            return v, p_
+        cmps = []
+        for x in deep:
+            if (x.get("k") == "Binary" and x.get("o") in ("Eq", "Ne", "Lt", "Le", "Gt", "Ge")) or T.is_call(x, ("eq", "ne", "lt", "le", "gt", "ge")):
+                a, b = (x["l"], x["r"]) if x.get("k") == "Binary" else (x["a"][0], x["a"][1]) if len(x.get("a", [])) == 2 else (None, None)
+                if a is None:
+                    continue
+                op = (x.get("o") or x.get("n")).lower()
+                (va, pa), (vb, pb) = side(a), side(b)
+                if (va and not pa) or (vb and not pb):
+                    other_is_ptr = (pb if va and not pa else pa)
+                    cmps.append((op, other_is_ptr, x))
+        good = [c for c in cmps if c[0] == "eq" and c[1]]
+        bad = [c for c in cmps if not (c[0] == "eq" and c[1])]
+        key = "sizeof|equals-pointer-size"
+        msg = "the sizeof-on-pointer check must compare the parameter's value for EQUALITY with the size of the stack pointer register (the pointer size of the analysed CPU), not a fixed number"
+        if bad:
+            run.violated("R1", key, msg + "; found `%s`" % T.show(bad[0][2], F)[:100], F.loc(bad[0][2]))
+        elif good:
+            run.holds("R1", key, "", F.loc(good[0][2]))
+        else:
+            run.undecided("R1", key, "no comparison of an evaluated parameter found", site)
+        # SOME parameter: an `any` over the parameters, or a loop that returns true on the first hit and false afterwards
+        key = "sizeof|any-parameter"
+        msg = "the check must hold if SOME parameter equals the pointer size: all parameters are examined, true on a hit, false otherwise"
+        if not good:
+            run.undecided("R1", key, "comparison not found", site)
+        else:
+            eqn = good[0][2]
+            ctx = IC.contexts(F, f, eqn)
+            fields, adapt = IC.summary(F, f, ctx)
+            cut = [a for a in adapt if a in ("take", "skip", "step_by", "take_while", "skip_while", "nth", "last", "first", "find", "position", "peekable")]
+            own, chain = IC.owner(F, f, eqn)
+            in_any = False
+            b_ = own
+            while b_ is not None and b_.get("dk") == "Closure":
+                parent = F.by_path.get(b_.get("parent"))
+                if parent is None:
+                    break
+                for y in T.walk(parent["body"]):
+                    if T.is_call(y, ("any",)) and any(T.peel(a).get("k") == "Closure" and T.peel(a).get("d") == b_["path"] for a in y.get("a", [])):
+                        in_any = True
+                    if T.is_call(y, ("all", "find", "position")) and any(T.peel(a).get("k") == "Closure" and T.peel(a).get("d") == b_["path"] for a in y.get("a", [])):
+                        in_any = in_any or None
+                b_ = parent
+            sy = S.Sym(F)
+            env = {}
+            t = sy.term(f["body"], env)
+            rets = T.paths_to(f["body"], lambda x: x.get("k") == "Return" and x.get("ds") not in ("QuestionMark",))
+            loop_rets = [sy.ev(n["e"], env) for n, _ in rets if "e" in n]
+            tail = S.value(t)
+            loop_form = bool(T.for_loops(f["body"])) and tail == ("lit", False) and bool(loop_rets) and all(r == ("lit", True) for r in loop_rets)
+            if "parameters" not in fields:
+                run.undecided("R1", key, "the comparison does not run in an iteration over the symbol's parameters", site)
+            elif cut:
+                run.violated("R1", key, msg + "; the iteration is cut by %s" % cut, site)
+            elif in_any is True or loop_form:
+                run.holds("R1", key, "", site)
+            elif T.for_loops(f["body"]) and loop_rets and not loop_form:
+                run.violated("R1", key, msg + "; the loop returns %s and ends with %s" % ([fmt(r) for r in loop_rets][:3], fmt(tail)), site)
+            else:
+                run.undecided("R1", key, "how the per-parameter results are combined is not recognised", site)
 
     run.guarded("R1", r1)
 
@@ -363,11 +410,17 @@ def run(run):
         f467 = F.fn("compute_block_end_state", mod="checkers::cwe_467")
         replay_ok(f467, "sizeof")
         f = F.fn("check_for_pointer_sized_arg", mod="checkers::cwe_467")
-        t = S.Sym(F).term(f["body"])
-        evs = [x for x in S.subterms(t) if is_call(x, "eval_parameter_arg")]
-        ok = bool(evs) and is_call(evs[0][2][0], "compute_block_end_state")
-        run.check("R2", "sizeof|parameter-on-replayed-state", ok, "parameters must be evaluated on the block-end state computed for the call block", F.loc(f["body"]))
-        conc = any(is_call(x, "try_to_bitvec") for x in S.subterms(t))
+        from .lib import mayflow as MF
+        deep = list(T.walk_deep(F, f["body"], 2))
+        evs = [x for x in deep if T.is_call(x, "eval_parameter_arg")]
+        mf_st = MF.MayFlow(F, seed=lambda y: T.is_call(y, "compute_block_end_state"))
+        mf_st.run(f, set())
+        on_state = [x for x in evs if x.get("a") and any(mf_st.mentions(x["a"][0], ids) for ids in mf_st.reached.values())]
+        if not evs:
+            run.undecided("R2", "sizeof|parameter-on-replayed-state", "no eval_parameter_arg call found", F.loc(f["body"]))
+        else:
+            run.check("R2", "sizeof|parameter-on-replayed-state", len(on_state) == len(evs), "parameters must be evaluated on the block-end state computed for the call block", F.loc(f["body"]))
+        conc = any(T.is_call(x, "try_to_bitvec") for x in deep)
         run.check("R2", "sizeof|single-concrete-value", conc, "only a single concrete parameter value can equal the pointer size (try_to_bitvec)", F.loc(f["body"]))
 
     run.guarded("R2", r2)
